@@ -552,7 +552,7 @@ func (vc *VC) useTableLemmas(info *globalInfo, idx, v *Term) {
 			continue
 		}
 		f := &Frame{vc: vc, fn: vc.fn, names: map[string]CV{}}
-		ctx := &EvalCtx{f: f, names: map[string]CV{tl.Idx: {VT{idx}, nil}, tl.Val: {VT{v}, nil}}, bound: map[string]*Term{}, st: &State{pc: vc.B.True(), heap: map[string]*Term{}, cells: map[string]Value{}}}
+		ctx := &EvalCtx{f: f, pkg: tl.Pkg, names: map[string]CV{tl.Idx: {VT{idx}, nil}, tl.Val: {VT{v}, nil}}, bound: map[string]*Term{}, st: &State{pc: vc.B.True(), heap: map[string]*Term{}, cells: map[string]Value{}}}
 		g, err := ctx.evalBoolSafe(tl.E)
 		if err != nil {
 			vc.note("table lemma %s cannot be instantiated: %v", tl.Table, err)
@@ -601,7 +601,7 @@ func (e *Engine) checkTableLemmas(prop string) []*Obligation {
 		for i, val := range info.table {
 			f := &Frame{vc: vc, names: map[string]CV{}}
 			v := B.Big(val)
-			ctx := &EvalCtx{f: f, names: map[string]CV{tl.Idx: {VT{B.Int(int64(i))}, nil}, tl.Val: {VT{v}, nil}}, bound: map[string]*Term{}, st: &State{pc: B.True(), heap: map[string]*Term{}, cells: map[string]Value{}}}
+			ctx := &EvalCtx{f: f, pkg: tl.Pkg, names: map[string]CV{tl.Idx: {VT{B.Int(int64(i))}, nil}, tl.Val: {VT{v}, nil}}, bound: map[string]*Term{}, st: &State{pc: B.True(), heap: map[string]*Term{}, cells: map[string]Value{}}}
 			if info.elemBool {
 				ctx.names[tl.Val] = CV{VT{B.Bool(val.Sign() != 0)}, nil}
 			}
@@ -617,6 +617,72 @@ func (e *Engine) checkTableLemmas(prop string) []*Obligation {
 				o.Res.Model = map[string]string{"index": fmt.Sprint(i), "value": val.String()}
 				break
 			}
+		}
+		out = append(out, o)
+	}
+	return out
+}
+
+// checkWriters: a scan of every function of the module for stores to the named
+// package-level variable (directly, or to an element of the slice/array it holds).
+func (e *Engine) checkWriters(prop string) []*Obligation {
+	var out []*Obligation
+	for _, w := range e.CS.Writers {
+		has := len(w.Props) == 0
+		for _, p := range w.Props {
+			if p == prop {
+				has = true
+			}
+		}
+		if !has {
+			continue
+		}
+		o := &Obligation{Name: w.Pkg + "." + w.Global + "/writers", Kind: "writers", Func: w.Pkg + "." + w.Global,
+			Text: "only " + strings.Join(w.Funcs, ", ") + " store to " + w.Global, Pos: w.Pos}
+		o.Res.Solver = "store scan over all functions"
+		sp := e.P.ByPkg[w.Pkg]
+		var g *ssa.Global
+		if sp != nil {
+			g, _ = sp.Members[w.Global].(*ssa.Global)
+		}
+		if g == nil {
+			o.Res.Verdict = "error"
+			o.Res.Output = "no such package-level variable in the current source"
+			out = append(out, o)
+			continue
+		}
+		allowed := map[string]bool{}
+		for _, f := range w.Funcs {
+			allowed[w.Pkg+"."+f] = true
+		}
+		var bad []string
+		for key, fn := range e.P.Funcs {
+			if isInitFunc(fn) && fn.Pkg == sp {
+				continue
+			}
+			for _, b := range fn.Blocks {
+				for _, in := range b.Instrs {
+					st, ok := in.(*ssa.Store)
+					if !ok {
+						continue
+					}
+					root, _ := addrRoot(st.Addr)
+					hit := root == ssa.Value(g)
+					if ld, ok := root.(*ssa.UnOp); ok && ld.Op == token.MUL && ld.X == ssa.Value(g) {
+						hit = true // store to an element of the slice held by the variable
+					}
+					if hit && !allowed[key] {
+						bad = append(bad, key)
+					}
+				}
+			}
+		}
+		if len(bad) == 0 {
+			o.Res.Verdict = "unsat"
+		} else {
+			sort.Strings(bad)
+			o.Res.Verdict = "sat"
+			o.Res.Output = "unexpected writer(s): " + strings.Join(bad, ", ")
 		}
 		out = append(out, o)
 	}
